@@ -478,6 +478,13 @@ func (s *AbsfsNFS) WriteWithContext(ctx context.Context, node *NFSNode, offset i
 
 	n, err := f.WriteAt(data, offset)
 	if err == nil {
+		// The WRITE reply acknowledges this data as FILE_SYNC (RFC 1813 3.3.7), so it
+		// has to be on stable storage before success is reported.
+		if syncErr := f.Sync(); syncErr != nil {
+			s.attrCache.Invalidate(node.path)
+			return 0, fmt.Errorf("write: failed to sync %s: %w", node.path, syncErr)
+		}
+
 		// Invalidate cache after successful write
 		s.attrCache.Invalidate(node.path)
 
